@@ -470,6 +470,8 @@ class Check:
                 cmd += ["--fn", fn]
             if job.get("fuel"):
                 cmd += ["--fuel", job["fuel"]]
+            for lc in job.get("locals", ()):
+                cmd += ["--locals", lc]
             with Lock("coq"):
                 rc, o, e = run(cmd, timeout=1800)
             if rc != 0:
